@@ -7,11 +7,13 @@
    Specification: `dict_step` on an association list keyed by (namespace, local name) plus the client's
    views (VLive key | VDead value).  `deconstruct_clark_notation` is Gen/GenAttr.v, regenerated from
    _delb/names.py on every run; the model is defined in terms of it.  The model follows /repo after the
-   fixes bde0777, 3e7a286, 159ed68, bed1ba7.
-   Remaining hypotheses: `sys_wf` contains no_collision (no store key {d}name for the default namespace d:
-   there the accessor ("", name) still misses the entry, C11_refuted_collision) and `step_safe` contains
-   no_stale (no second held live object on an entry that is being removed, C11_refuted_second_view); the
-   rest of both is the stated domain (legal accessors without braces, references to objects obtained). *)
+   fixes bde0777, 3e7a286, 159ed68, bed1ba7, badd57c.
+   Remaining hypotheses beyond the stated domain (legal accessors without braces, references to objects
+   obtained): `sys_wf` contains no_double (the store does not hold both `name` and `{d}name` for the default
+   namespace d - two XML attributes delb presents under one key; preserved by every operation, violated
+   only by such a parsed or constructed node, C11_refuted_double) and `step_safe` contains no_stale (no second
+   held live object on an entry that is being removed: the open finding C11-second-live-view,
+   C11_refuted_second_view). *)
 From Coq Require Import List NArith Bool.
 From Delb.Base Require Import PyStr PySplit.
 From Delb.Gen Require Import GenAttr.
@@ -52,19 +54,20 @@ Proof.
 Qed.
 Print Assumptions C11_refuted_second_view.
 
-(* the store holds {d}k while d is the default namespace in scope (DESIGN 13b/13e): since bde0777 the
-   entry is reachable as (d, k), but not under the spelling ("", k) of the same dictionary key; everything
-   else is well-formed and the operations are inside the guard *)
-Theorem C11_refuted_collision : exists y l,
-  store_shape (fst y) = true /\ cache_ok (fst y) = true /\ snd y = [] /\ no_collision (fst y) = false /\
+(* the store holds BOTH k and {d}k while d is the default namespace in scope - two XML attributes, as in
+   <x xmlns="d" xmlns:p="d" k="1" p:k="2"/>, that are presented under the one key (d, k).  Not reachable by
+   attribute operations from a well-formed node (sys_wf contains no_double and is preserved, C11_refines),
+   but by parsing.  Everything else is well-formed and the operations are inside the guard. *)
+Theorem C11_refuted_double : exists y l,
+  store_shape (fst y) = true /\ cache_ok (fst y) = true /\ snd y = [] /\ no_double (fst y) = false /\
   run_safe y l = true /\ run_disagrees y l.
 Proof.
-  exists (init_sys [100%N] [100%N] [(123%N :: 100%N :: 125%N :: [107%N], [48%N])]).
-  exists [OContains (APair (Some []) [107%N]); OSet (APair (Some []) [107%N]) [49%N]; OLen].
-  repeat split; try (vm_compute; reflexivity). exists 0, (RBool true), (RBool false). vm_compute.
+  exists (init_sys [100%N] [100%N] [([107%N], [49%N]); (123%N :: 100%N :: 125%N :: [107%N], [50%N])]).
+  exists [OGet (AStr [107%N]); OValue 0].
+  repeat split; try (vm_compute; reflexivity). exists 1, (RStr [49%N]), (RStr [50%N]). vm_compute.
   repeat split; try reflexivity; discriminate.
 Qed.
-Print Assumptions C11_refuted_collision.
+Print Assumptions C11_refuted_double.
 
 (* regression examples: the witnesses of the findings repaired in /repo now agree with the dictionary *)
 Example C11_fixed_stale_view :      (* 3e7a286: fetch, re-set, delete, read the object fetched first *)
@@ -85,9 +88,13 @@ Proof. vm_compute. repeat split; reflexivity. Qed.
 Example C11_fixed_collision_reachable :   (* bde0777: the stored {d}k is reached and overwritten, len stays 1 *)
   let y := init_sys [100%N] [100%N] [(123%N :: 100%N :: 125%N :: [107%N], [48%N])] in
   let l := [ONodeSet (AStr [107%N]) [49%N]; OLen; OIter] in
-  snd (sys_run y l) = [RNone; RNat 1; RKeys [([100%N], [107%N])]] /\
-  snd (dict_run (abs_sys y) l (snd (sys_run y l))) = snd (sys_run y l).
-Proof. vm_compute. split; reflexivity. Qed.
+  sys_wf y = true /\ run_safe y l = true /\ snd (sys_run y l) = [RNone; RNat 1; RKeys [([100%N], [107%N])]].
+Proof. vm_compute. repeat split; reflexivity. Qed.
+Example C11_fixed_collision_no_namespace :   (* badd57c: ... and also under the spelling ("", k) *)
+  let y := init_sys [100%N] [100%N] [(123%N :: 100%N :: 125%N :: [107%N], [48%N])] in
+  let l := [OContains (APair (Some []) [107%N]); OSet (APair (Some []) [107%N]) [49%N]; OLen; OGet (AStr [107%N]); OValue 0] in
+  sys_wf y = true /\ run_safe y l = true /\ snd (sys_run y l) = [RBool true; RNone; RNat 1; RObj 0; RStr [49%N]].
+Proof. vm_compute. repeat split; reflexivity. Qed.
 
 Theorem C11_refuted_means_not_ok : forall y l, run_disagrees y l -> ~ run_ok y l.
 Proof. exact disagrees_not_ok. Qed.
@@ -114,10 +121,10 @@ Theorem C11_accessors_ops : forall s a1 a2,
 Proof. exact astep_resolve. Qed.
 Print Assumptions C11_accessors_ops.
 
-(* and "no namespace" / "the default namespace in scope" reach the same store entry (unless the store holds
-   `{d}name` for the default namespace d: the remaining collision class) *)
+(* and "no namespace" / "the default namespace in scope" reach the same store entry *)
 Theorem C11_accessors_default_ns : forall dns st name,
-  ahas str_eqb st (clark (dns, name)) = false -> etree_key dns st ([], name) = etree_key dns st (dns, name).
+  plain dns = true -> SWf dns st -> plain name = true ->
+  etree_key dns st ([], name) = etree_key dns st (dns, name).
 Proof. exact alias_same_entry. Qed.
 Print Assumptions C11_accessors_default_ns.
 
